@@ -11,12 +11,15 @@ From V Require Import Proofs.MedianProofs Proofs.TidyC18.
 From V Require Import Model.ZMap Model.Quorum Model.HgImpl Model.PeerSetSpec
   Proofs.ZMapFacts Proofs.HgBlockFrames Proofs.BlockInv Proofs.RoundOrder Proofs.OrderFrames Proofs.OrderProofs
   Proofs.AdmissionProofs Proofs.CInvRun Proofs.Committed Proofs.PeerSetProofs Proofs.TidyRR Proofs.GapWindow Proofs.RoundAgreeD
-  Proofs.BlockAgree Proofs.Agreement Proofs.BlockAgreeD.
+  Proofs.BlockAgree Proofs.Agreement Proofs.BlockAgreeD Proofs.FsvFrames Proofs.FsvD.
 Import ListNotations RecordSetNotations.
 Open Scope Z_scope.
 
+Definition tbl_below (g : peerset) (ds : list block) (R : Z) : list (Z * peerset) :=
+  fst (replay_genesis g (filter (fun d => b_rr d <? R) ds)).
 Definition FPI (g : peerset) (s : hg) : Prop :=
-  forall R f, zget R (frames s) = Some f -> f_peers f = validators_at g (delivered s) R.
+  forall R f, zget R (frames s) = Some f ->
+    f_peers f = validators_at g (delivered s) R /\ f_peersets f = tbl_below g (delivered s) R.
 
 Definition fv (s : hg) := (frames s, delivered s, last_consensus s).
 
@@ -33,7 +36,8 @@ Proof. intros H. destruct (rv_fields _ _ H) as [_ [_ [L [F D]]]]. unfold fv. con
 
 Lemma get_frame_peers st rr f s : get_frame st rr = (Some f, s) ->
   (zget rr (frames st) = Some f /\ s = st) \/
-  (zget rr (frames st) = None /\ get_peerset st rr = Some (f_peers f) /\ frames s = zset rr f (frames st)).
+  (zget rr (frames st) = None /\ get_peerset st rr = Some (f_peers f) /\ frames s = zset rr f (frames st) /\
+   f_peersets f = peersets st).
 Proof.
   unfold get_frame.
   destruct (zget rr (frames st)) as [g0|] eqn:Hg.
@@ -43,8 +47,8 @@ Proof.
   match goal with |- context [fold_left ?f ?l ?a] => destruct (fold_left f l a) end; [|discriminate].
   match goal with |- context [fold_left ?f (repertoire st) ?a] => destruct (fold_left f (repertoire st) a) end;
     [|discriminate].
-  intros H; inversion H; subst; clear H. right. cbn [f_peers]. split; [reflexivity|]. split; [reflexivity|].
-  destruct st; reflexivity.
+  intros H; inversion H; subst; clear H. right. cbn [f_peers f_peersets]. split; [reflexivity|]. split; [reflexivity|].
+  split; [destruct st; reflexivity|reflexivity].
 Qed.
 
 Lemma validators_at_snoc g ds b q : q < b_rr b + 6 -> validators_at g (ds ++ [b]) q = validators_at g ds q.
@@ -53,17 +57,32 @@ Proof.
   replace (b_rr b + 6 <=? q) with false by lia. rewrite app_nil_r. reflexivity.
 Qed.
 
-Lemma process_round_fp g s p stop pr : rinvA s -> lc_lt s (fst pr) -> c10inv g s -> FR s -> FPI g s ->
-  FR (fst (fst (process_round (s, p, stop) pr))) /\ FPI g (fst (fst (process_round (s, p, stop) pr))).
+Lemma validators_below_snoc g ds b q : q <= b_rr b -> tbl_below g (ds ++ [b]) q = tbl_below g ds q.
 Proof.
-  intros A Hlt C Hfr Hfp. unfold process_round.
-  assert (Kfail : forall s0, FR s0 -> FPI g s0 -> FR (fail s0) /\ FPI g (fail s0)).
-  { intros s0 X Y. apply (fp_ext g s0); [apply fv_rv, rv_fail|auto]. }
+  intros H. unfold tbl_below. rewrite filter_app. cbn [filter].
+  replace (b_rr b <? q) with false by lia. rewrite app_nil_r. reflexivity.
+Qed.
+
+Lemma filter_all {A} (f : A -> bool) l : (forall x, In x l -> f x = true) -> filter f l = l.
+Proof.
+  induction l as [|a l IH]; intros H; cbn [filter]; [reflexivity|]. rewrite (H a (or_introl eq_refl)).
+  rewrite IH; [reflexivity|]. intros x Hx. apply H. right. exact Hx.
+Qed.
+
+Lemma process_round_fp g s p stop pr : rinvA s -> lc_lt s (fst pr) -> c10inv g s -> FR s -> FPI g s -> J s ->
+  FR (fst (fst (process_round (s, p, stop) pr))) /\ FPI g (fst (fst (process_round (s, p, stop) pr))) /\
+  J (fst (fst (process_round (s, p, stop) pr))).
+Proof.
+  intros A Hlt C Hfr Hfp Hj. unfold process_round.
+  assert (Kfail : forall s0, FR s0 -> FPI g s0 -> J s0 -> FR (fail s0) /\ FPI g (fail s0) /\ J (fail s0)).
+  { intros s0 X Y Z0. destruct (fp_ext g s0 (fail s0) (fv_rv _ _ (rv_fail s0)) (conj X Y)) as [X' Y'].
+    split; [exact X'|]. split; [exact Y'|]. apply (J_qview s0); [apply fail_qview|apply fsv_fail|exact Z0]. }
   destruct (stop || failed s); [cbn [fst]; auto|].
   destruct (snd pr); cbn [negb]; [|cbn [fst]; auto].
   destruct (get_round s (fst pr)) as [ri|] eqn:Hri; [|cbn [fst]; apply Kfail; auto].
+  pose proof (get_frame_qview s (fst pr)) as Qg. pose proof (fsv_get_frame s (fst pr)) as Fg.
   destruct (get_frame s (fst pr)) as [[f|] s1] eqn:Hgf; [|apply get_frame_none in Hgf; subst s1; cbn [fst]; apply Kfail; auto].
-  cbn [fst snd].
+  cbn [fst snd] in *.
   destruct (get_frame_spec s (fst pr) f s1 (r_frames s A) Hgf) as [HfR [Hd1 [_ [_ [_ [Lc1 _]]]]]].
   set (r := fst pr) in *. set (s2 := process_frame s1 f).
   pose proof (process_frame_cv s1 f) as C2. fold s2 in C2.
@@ -74,35 +93,49 @@ Proof.
   destruct (bump_keep s2 r) as [_ [Fr3 Dl3]].
   assert (Hr0 : 0 <= r) by (apply (r_contig s A); congruence).
   (* the cached frames after GetFrame *)
-  assert (Keys : forall q g0, zget q (frames s1) = Some g0 -> q <= r /\ f_peers g0 = validators_at g (delivered s) q).
+  assert (Hprev : forall d, In d (delivered s) -> b_rr d < r).
+  { intros d Hin. destruct (r_del_lc s A d Hin) as [l [Hl Hle]]. unfold lc_lt in Hlt. rewrite Hl in Hlt. lia. }
+  pose proof (f_equal fst (c_replay g s C)) as Et. cbn [fst] in Et.
+  assert (Keys : forall q g0, zget q (frames s1) = Some g0 ->
+            q <= r /\ f_peers g0 = validators_at g (delivered s) q /\ f_peersets g0 = tbl_below g (delivered s) q).
   { intros q g0 Hq.
-    assert (Old : zget q (frames s) = Some g0 -> q <= r /\ f_peers g0 = validators_at g (delivered s) q).
+    assert (Old : zget q (frames s) = Some g0 ->
+              q <= r /\ f_peers g0 = validators_at g (delivered s) q /\ f_peersets g0 = tbl_below g (delivered s) q).
     { intros Hq0. split; [|apply Hfp; exact Hq0]. destruct (Hfr q g0 Hq0) as [l [Hl Hle]]. unfold lc_lt in Hlt. rewrite Hl in Hlt. lia. }
-    destruct (get_frame_peers s r f s1 Hgf) as [[_ ->]|[Hz [Hps Hfs]]]; [apply Old; exact Hq|].
+    destruct (get_frame_peers s r f s1 Hgf) as [[_ ->]|[Hz [Hps [Hfs Hpt]]]]; [apply Old; exact Hq|].
     rewrite Hfs, zget_zset in Hq. destruct ((r =? q) && (0 <=? r)) eqn:E; [|apply Old; exact Hq].
-    inversion Hq; subst g0. assert (q = r) by lia. subst q. split; [lia|].
-    unfold get_peerset in Hps. pose proof (f_equal fst (c_replay g s C)) as Et. cbn [fst] in Et. rewrite Et in Hps.
-    rewrite (lookup_is_prefix_replay g (delivered s) r (r_del_sorted s A) (c10inv_rr_nonneg g s C) Hr0) in Hps.
-    inversion Hps. reflexivity. }
-  split.
+    inversion Hq; subst g0. assert (q = r) by lia. subst q. split; [lia|]. split.
+    - unfold get_peerset in Hps. rewrite Et in Hps.
+      rewrite (lookup_is_prefix_replay g (delivered s) r (r_del_sorted s A) (c10inv_rr_nonneg g s C) Hr0) in Hps.
+      inversion Hps. reflexivity.
+    - rewrite Hpt, Et. unfold tbl_below. rewrite filter_all; [reflexivity|]. intros d Hd. specialize (Hprev d Hd). lia. }
+  (* the table keys lie below r + 6 *)
+  assert (Hk : forall k p0, In (k, p0) (peersets s1) -> k < f_round f + 6).
+  { intros k p0. destruct (qview_split _ _ Qg) as [Pv _]. unfold pview in Pv. assert (Ept : peersets s1 = peersets s) by (inversion Pv; reflexivity).
+    rewrite Ept, Et, HfR. unfold replay_genesis. intros Hin.
+    destruct (replay_keys _ _ _ _ _ Hin) as [[p1 [X|[]]]|[d [Hd Ek]]]; [inversion X; lia|]. specialize (Hprev d Hd). lia. }
+  split; [|split].
   - intros q g0. rewrite Fr3, Fr2. intros Hq. destruct (Keys q g0 Hq) as [Hle _]. exists r. split; [exact Lc3|exact Hle].
-  - intros q g0. rewrite Fr3, Fr2, Dl3. intros Hq. destruct (Keys q g0 Hq) as [Hle Hp]. rewrite Hp.
-    destruct (process_frame_delivered s1 f) as [E|[bf [E Hb]]]; fold s2 in E; rewrite E, Hd1; [reflexivity|].
-    symmetry. apply validators_at_snoc. rewrite Hb, HfR. lia.
+  - intros q g0. rewrite Fr3, Fr2, Dl3. intros Hq. destruct (Keys q g0 Hq) as [Hle [Hp Hp2]]. rewrite Hp, Hp2.
+    destruct (process_frame_delivered s1 f) as [E|[bf [E Hb]]]; fold s2 in E; rewrite E, Hd1; [split; reflexivity|].
+    split; symmetry; [apply validators_at_snoc; rewrite Hb, HfR; lia|apply validators_below_snoc; rewrite Hb, HfR; lia].
+  - apply (J_qview s2); [apply bump_last_consensus_qview|apply fsv_bump|]. unfold s2. apply process_frame_J; [|exact Hk].
+    apply (J_qview s); [exact Qg|exact Fg|exact Hj].
 Qed.
 
 Lemma process_fold_fp g : forall l s p stop,
   rinvA s -> StronglySorted Z.lt (map fst l) -> (forall r, In r (map fst l) -> lc_lt s r) ->
-  binv s -> PeerSetProofs.finv s -> c10inv g s -> FR s -> FPI g s ->
-  FR (fst (fst (fold_left process_round l (s, p, stop)))) /\ FPI g (fst (fst (fold_left process_round l (s, p, stop)))).
+  binv s -> PeerSetProofs.finv s -> c10inv g s -> FR s -> FPI g s -> J s ->
+  FR (fst (fst (fold_left process_round l (s, p, stop)))) /\ FPI g (fst (fst (fold_left process_round l (s, p, stop)))) /\
+  J (fst (fst (fold_left process_round l (s, p, stop)))).
 Proof.
-  induction l as [|pr rest IH]; intros s p stop A Hs Hab OK FI C Hfr Hfp; cbn [fold_left]; [cbn [fst]; auto|].
+  induction l as [|pr rest IH]; intros s p stop A Hs Hab OK FI C Hfr Hfp Hj; cbn [fold_left]; [cbn [fst]; auto|].
   cbn [map] in Hs, Hab. inversion Hs as [|? ? Hs' Hall]; subst. rewrite Forall_forall in Hall.
   assert (Hlt : lc_lt s (fst pr)) by (apply Hab; left; reflexivity).
   destruct (process_round_spec s p stop pr A Hlt) as [A' [_ Hcase]].
   pose proof (process_round_binv s p stop pr OK) as OK'.
   destruct (process_round_lift (c10inv g) (fun st st' E _ => c10inv_ext g st st' E) (c10inv_commit g) s p stop pr OK FI C) as [FI' C'].
-  destruct (process_round_fp g s p stop pr A Hlt C Hfr Hfp) as [Hfr' Hfp'].
+  destruct (process_round_fp g s p stop pr A Hlt C Hfr Hfp Hj) as [Hfr' [Hfp' Hj']].
   destruct (process_round (s, p, stop) pr) as [[s' p'] stop'] eqn:E. cbn [fst snd] in *.
   apply IH; auto.
   intros r' Hr'. unfold lc_lt. destruct Hcase as [[_ [L _]]|[_ [_ L]]]; rewrite L.
@@ -110,22 +143,35 @@ Proof.
   - apply Hall. exact Hr'.
 Qed.
 
-Lemma run_consensus_fp g st : rinv st -> binv st -> PeerSetProofs.finv st -> c10inv g st -> FR st -> FPI g st ->
-  FR (run_consensus st) /\ FPI g (run_consensus st).
+Lemma J_bview s s' : bview s' = bview s -> fsv s' = fsv s -> J s -> J s'.
+Proof. intros B. apply J_ext. unfold bview in B. inversion B. reflexivity. Qed.
+
+Lemma fpj_ext g s s' : fv s' = fv s -> bview s' = bview s -> fsv s' = fsv s ->
+  FR s /\ FPI g s /\ J s -> FR s' /\ FPI g s' /\ J s'.
 Proof.
-  intros R OK FI C Hfr Hfp. unfold run_consensus.
+  intros A B C [X [Y Z0]]. destruct (fp_ext g s s' A (conj X Y)) as [X' Y']. split; [exact X'|]. split; [exact Y'|].
+  apply (J_bview s); auto.
+Qed.
+
+Lemma run_consensus_fp g st : rinv st -> binv st -> PeerSetProofs.finv st -> c10inv g st -> FR st -> FPI g st -> J st ->
+  FR (run_consensus st) /\ FPI g (run_consensus st) /\ J (run_consensus st).
+Proof.
+  intros R OK FI C Hfr Hfp Hj. unfold run_consensus.
   pose proof (divide_rounds_bview st) as B1.
-  assert (X1 : FR (divide_rounds st) /\ FPI g (divide_rounds st)) by (apply (fp_ext g st); [apply fv_bview, B1|auto]).
+  assert (X1 : FR (divide_rounds st) /\ FPI g (divide_rounds st) /\ J (divide_rounds st))
+    by (apply (fpj_ext g st); [apply fv_bview, B1|exact B1|apply divide_rounds_fsv|auto]).
   destruct (failed (divide_rounds st)) eqn:F1; [exact X1|].
   assert (R1 : rinv (divide_rounds st)).
   { destruct (divide_rounds_rinv st (or_intror R)) as [F|R1]; [congruence|exact R1]. }
   set (s1 := divide_rounds st) in *.
   pose proof (decide_fame_bview s1) as B2.
-  assert (X2 : FR (decide_fame s1) /\ FPI g (decide_fame s1)) by (apply (fp_ext g s1); [apply fv_bview, B2|auto]).
+  assert (X2 : FR (decide_fame s1) /\ FPI g (decide_fame s1) /\ J (decide_fame s1))
+    by (apply (fpj_ext g s1); [apply fv_bview, B2|exact B2|apply decide_fame_fsv|auto]).
   destruct (failed (decide_fame s1)) eqn:F2; [exact X2|].
   pose proof (decide_fame_rinv s1 R1) as R2. set (s2 := decide_fame s1) in *.
   pose proof (decide_round_received_bview s2) as B3.
-  assert (X3 : FR (decide_round_received s2) /\ FPI g (decide_round_received s2)) by (apply (fp_ext g s2); [apply fv_bview, B3|auto]).
+  assert (X3 : FR (decide_round_received s2) /\ FPI g (decide_round_received s2) /\ J (decide_round_received s2))
+    by (apply (fpj_ext g s2); [apply fv_bview, B3|exact B3|apply decide_round_received_fsv|auto]).
   destruct (failed (decide_round_received s2)) eqn:F3; [exact X3|].
   pose proof (rinv_rstep s2 _ R2 (decide_round_received_rstep s2 (proj1 (rinv_bounded s2 R2)))) as R3.
   set (s3 := decide_round_received s2) in *.
@@ -133,11 +179,11 @@ Proof.
   assert (OK3 : binv s3) by (apply (binv_bview st); auto).
   assert (FI3 : PeerSetProofs.finv s3) by (apply (PeerSetProofs.finv_frames st); [apply bview_frames; exact Bv|exact FI]).
   assert (C3 : c10inv g s3) by (apply (c10inv_ext g st); [apply bview_pview; exact Bv|exact C]).
-  destruct X3 as [Hfr3 Hfp3].
-  pose proof (process_fold_fp g (pending s3) s3 [] false (proj1 R3) (r_sorted s3 (proj1 R3)) (r_above s3 (proj2 R3)) OK3 FI3 C3 Hfr3 Hfp3) as X4.
+  destruct X3 as [Hfr3 [Hfp3 Hj3]].
+  pose proof (process_fold_fp g (pending s3) s3 [] false (proj1 R3) (r_sorted s3 (proj1 R3)) (r_above s3 (proj2 R3)) OK3 FI3 C3 Hfr3 Hfp3 Hj3) as X4.
   unfold process_decided_rounds.
   destruct (fold_left process_round (pending s3) (s3, [], false)) as [[s processed] stop]. cbn [fst] in X4.
-  apply (fp_ext g s); [destruct s; reflexivity|exact X4].
+  apply (fpj_ext g s); [destruct s; reflexivity|destruct s; reflexivity|destruct s; reflexivity|exact X4].
 Qed.
 
 Lemma process_sigpool_fv st : fv (process_sigpool st) = fv st.
@@ -147,25 +193,28 @@ Proof.
 Qed.
 
 Record KP (g : peerset) (st : hg) : Prop := {
-  kp_r : rinv st; kp_b : binv st; kp_f : PeerSetProofs.finv st; kp_c : c10inv g st; kp_fr : FR st; kp_fp : FPI g st
+  kp_r : rinv st; kp_b : binv st; kp_f : PeerSetProofs.finv st; kp_c : c10inv g st; kp_fr : FR st; kp_fp : FPI g st;
+  kp_j : J st
 }.
 
 Lemma hstep_KP g st o : KP g st -> failed (hstep st o) = false -> KP g (hstep st o).
 Proof.
-  intros [R OK FI C Hfr Hfp] F.
+  intros [R OK FI C Hfr Hfp Hj] F.
   destruct (hstep_lift0 (c10inv g) (c10inv_ext g) (c10inv_commit g) (fun st0 s _ _ => c10inv_sig g st0 s) st o OK FI C) as [FI' C'].
-  assert (X : FR (hstep st o) /\ FPI g (hstep st o)).
+  assert (X : FR (hstep st o) /\ FPI g (hstep st o) /\ J (hstep st o)).
   { destruct o as [e|]; cbn [hstep].
     - unfold step, insert_and_run.
-      pose proof (insert_event_bview st e) as B. pose proof (insert_event_rstep st e) as RS.
+      pose proof (insert_event_bview st e) as B. pose proof (insert_event_rstep st e) as RS. pose proof (insert_event_fsv st e) as Fs.
       destruct (insert_event st e) as [i s]. cbn [fst snd] in *.
-      assert (Xs : FR s /\ FPI g s) by (apply (fp_ext g st); [apply fv_bview, B|auto]).
+      assert (Xs : FR s /\ FPI g s /\ J s) by (apply (fpj_ext g st); [apply fv_bview, B|exact B|exact Fs|auto]).
       destruct i; cbn [snd]; try exact Xs.
       apply run_consensus_fp; [apply (rinv_rstep st); auto|apply (binv_bview st); auto|
         apply (PeerSetProofs.finv_frames st); [apply bview_frames; exact B|exact FI]|
-        apply (c10inv_ext g st); [apply bview_pview; exact B|exact C]|apply Xs|apply Xs].
-    - apply (fp_ext g st); [apply process_sigpool_fv|auto]. }
-  constructor; [|apply hstep_binv; exact OK|exact FI'|exact C'|apply X|apply X].
+        apply (c10inv_ext g st); [apply bview_pview; exact B|exact C]|apply Xs|apply Xs|apply Xs].
+    - destruct (fp_ext g st (process_sigpool st) (process_sigpool_fv st) (conj Hfr Hfp)) as [X' Y'].
+      split; [exact X'|]. split; [exact Y'|]. apply (J_ext st); [|apply process_sigpool_fsv|exact Hj].
+      pose proof (only_commit_sigpool st) as Tb. unfold tbl in Tb. inversion Tb. reflexivity. }
+  constructor; [|apply hstep_binv; exact OK|exact FI'|exact C'|apply X|apply X|apply X].
   exact (proj2 (hstep_rtop st o (rinv_rtop st R)) F).
 Qed.
 
@@ -183,7 +232,7 @@ Qed.
 Lemma KP_init self_ genesis oracle_ : self_ <> -1 -> KP genesis (init_hg self_ genesis oracle_).
 Proof.
   intros Hs. destruct (init_hg_spec self_ genesis oracle_) as (_ & _ & _ & _ & _ & _ & _ & _ & _ & _ & F).
-  constructor; [apply rinv_init|apply binv_init|apply PeerSetProofs.finv_init|apply c10inv_init; exact Hs| |].
+  constructor; [apply rinv_init|apply binv_init|apply PeerSetProofs.finv_init|apply c10inv_init; exact Hs| | |apply J_init].
   - intros R f. rewrite F, zget_empty. discriminate.
   - intros R f. rewrite F, zget_empty. discriminate.
 Qed.
@@ -200,7 +249,7 @@ Proof.
   pose proof (hrun_ginv all self_ genesis oracle_ ops ID H) as G. fold st in G.
   destruct (delivered_block_payload all st d G Hd) as [Hz _].
   destruct (c_frames genesis st (kp_c _ _ K) d Hd) as [[F0 _] [Ep Er]].
-  assert (E : b_peers d = validators_at genesis (delivered st) (b_rr d)) by (rewrite Ep; apply (kp_fp _ _ K _ _ Hz)).
+  assert (E : b_peers d = validators_at genesis (delivered st) (b_rr d)) by (rewrite Ep; apply (proj1 (kp_fp _ _ K _ _ Hz))).
   split; [exact E|]. rewrite E. apply (lookup_is_effective_prefix self_ genesis oracle_ ops (b_rr d) Hs). lia.
 Qed.
 
